@@ -2,6 +2,7 @@ import LZ4V.Proofs.BlockHub
 import LZ4V.Proofs.FastRProof
 import LZ4V.Proofs.FastSProof
 import LZ4V.Proofs.FastXProof
+import LZ4V.HC.HC5
 /-!
 # C18 — compression contexts stay correct after any history of reuse (specification part)
 -/
@@ -105,5 +106,13 @@ theorem history_restarts_at_reset (H : List UInt8) (before after : List Op) :
   induction before generalizing H with
   | nil => simp [histAt, hist]
   | cons b bs ih => simpa [histAt] using ih (hist H b)
+
+/-- **reused HC contexts at the hash-chain levels**: the parser keeps no state of its own between calls; whatever an earlier life left in the tables only
+    shows in the finders' answers.  So a block compressed on a context with ANY past decodes against its declared history as soon as the finders'
+    answers are byte-verified matches inside `hist ++ block` — the contract that the judge checks on every answer the real finders give on contexts reused
+    through `LZ4_resetStreamHC_fast` and `LZ4_compress_HC_extStateHC_fastReset` (and, for a context driven beyond 1 GB, by decoding) -/
+theorem hc_reused_context_block_decodes (hist block : List UInt8) (o : HC.Oracle) (hO : HC.OracleOK (hist ++ block) o) (fuel : Nat) (blk : List UInt8)
+    (h : HC.compressH o hist block fuel = some blk) : decode hist blk = some block :=
+  HC.compressH_decodes hist block o hO fuel blk h
 
 end LZ4V.C18
